@@ -126,6 +126,7 @@ type Scenario struct {
 }
 
 type symState struct {
+	dead   bool // an out-of-range access happened: the real execution panics here
 	heap   map[string]SV
 	assume map[string]bool
 	trace  []Event
@@ -133,7 +134,7 @@ type symState struct {
 }
 
 func (s *symState) clone() *symState {
-	n := &symState{heap: make(map[string]SV, len(s.heap)), assume: make(map[string]bool, len(s.assume))}
+	n := &symState{heap: make(map[string]SV, len(s.heap)), assume: make(map[string]bool, len(s.assume)), dead: s.dead}
 	for k, v := range s.heap {
 		n.heap[k] = v
 	}
@@ -341,7 +342,14 @@ func (ev *symEval) load(fr *symFrame, st *symState, addr SV, t types.Type) SV {
 		return v
 	}
 	if strings.HasPrefix(addr.Desc, "make#") {
-		return zeroFor(t)
+		base := addr.Desc
+		if j := strings.Index(base, ")"); j > 0 {
+			base = base[:j+1]
+		}
+		if _, written := st.heap["written:"+base]; !written {
+			return zeroFor(t)
+		}
+		return defaultFor(t, addr.Desc)
 	}
 	if ev.sc.ZeroRecv && strings.HasPrefix(addr.Desc, "recv.") {
 		if _, isSlice := t.Underlying().(*types.Slice); isSlice {
@@ -604,6 +612,9 @@ func (ev *symEval) runBlock(fr *symFrame, b *ssa.BasicBlock, idx int, st *symSta
 			}
 		case ssa.Value:
 			fr.env[x] = ev.evalValue(fr, st, x)
+			if st.dead {
+				return []outcome{{st: st, kind: "panic"}}
+			}
 		default:
 			ev.err = fmt.Errorf("unsupported instruction %T in %s", in, fname(fr.fn))
 			return nil
@@ -641,6 +652,25 @@ func (ev *symEval) doCall(fr *symFrame, st *symState, x *ssa.Call) ([]outcome, b
 	}
 	id := calleeID(x)
 	ev.curCall = x
+	// a slice handed to a callee (or the destination of copy) may be overwritten: its elements are no longer the zero values of make
+	inlinable := false
+	if f := cc.StaticCallee(); f != nil && ev.sc.Inline != nil && ev.sc.Inline(f) && len(f.Blocks) > 0 {
+		inlinable = true
+	}
+	if id != "builtin len" && id != "builtin cap" && id != "builtin append" && !inlinable {
+		for i, a := range args {
+			if id == "builtin copy" && i != 0 {
+				continue
+			}
+			if strings.HasPrefix(a.Desc, "make#") {
+				base := a.Desc
+				if j := strings.Index(base, ")"); j > 0 {
+					base = base[:j+1]
+				}
+				st.heap["written:"+base] = symBool(true)
+			}
+		}
+	}
 	// builtins
 	if bi, ok := cc.Value.(*ssa.Builtin); ok {
 		switch bi.Name() {
@@ -812,6 +842,10 @@ func (ev *symEval) evalValue(fr *symFrame, st *symState, v ssa.Value) SV {
 	case *ssa.IndexAddr:
 		base := ev.val(fr, x.X)
 		i := ev.val(fr, x.Index)
+		if base.Len != nil && base.Len.Known && i.K == "int" && i.Known && (i.N < 0 || i.N >= base.Len.N) {
+			st.dead = true
+			st.trace = append(st.trace, Event{Kind: "oob", What: "index", Args: []string{fmt.Sprintf("%s[%d] with len %d", base.Desc, i.N, base.Len.N)}, In: fname(fr.fn)})
+		}
 		return SV{K: "addr", Known: true, Desc: base.Desc + "[" + i.Desc + "]"}
 	case *ssa.Index:
 		base := ev.val(fr, x.X)
@@ -931,6 +965,28 @@ func (ev *symEval) evalValue(fr *symFrame, st *symState, v ssa.Value) SV {
 				// full slice of an array: same elements, known length
 				l := symInt(at.Len())
 				return SV{K: "slice", Desc: base.Desc, Len: &l, Cap: &l, Known: true}
+			}
+		}
+		// bounds, when everything is concrete
+		if base.Len != nil && base.Len.Known {
+			limit := base.Len.N
+			if base.Cap != nil && base.Cap.Known && base.Cap.N > limit && base.K != "str" {
+				limit = base.Cap.N
+			}
+			lo0, hi0 := int64(0), base.Len.N
+			loK, hiK := true, true
+			if lov != nil {
+				lo0, loK = lov.N, lov.K == "int" && lov.Known
+			}
+			if hiv != nil {
+				hi0, hiK = hiv.N, hiv.K == "int" && hiv.Known
+			}
+			if loK && hiK && (lo0 < 0 || lo0 > hi0 || hi0 > limit) {
+				st.dead = true
+				st.trace = append(st.trace, Event{Kind: "oob", What: "slice", Args: []string{fmt.Sprintf("%s[%d:%d] with len %d", base.Desc, lo0, hi0, base.Len.N)}, In: fname(fr.fn)})
+			} else if loK && !hiK && hiv == nil && lo0 > base.Len.N {
+				st.dead = true
+				st.trace = append(st.trace, Event{Kind: "oob", What: "slice", Args: []string{fmt.Sprintf("%s[%d:] with len %d", base.Desc, lo0, base.Len.N)}, In: fname(fr.fn)})
 			}
 		}
 		// length
@@ -1123,6 +1179,9 @@ func evalBin(op token.Token, a, b SV) SV {
 				eq = !eq
 			}
 			return symBool(eq)
+		}
+		if (a.K == "str" || b.K == "str") && a.Len != nil && b.Len != nil && a.Len.Known && b.Len.Known && a.Len.N != b.Len.N {
+			return symBool(op == token.NEQ)
 		}
 		if a.K == "str" && b.K == "str" && a.Known && b.Known {
 			eq := a.S == b.S
